@@ -16,10 +16,20 @@ type TypeCase struct {
 	Stmts []Stmt `json:"stmts"`
 	Ctx   Ctx    `json:"ctx"`
 	Full  bool   `json:"full"`
+	// Other (optional): a well-typed transform defined earlier in the same source. Every
+	// body is checked in its own environment: what Other assigns must not be known here.
+	Other []Stmt `json:"other,omitempty"`
 }
 
 func (c TypeCase) source() string {
 	body := strings.Join(StmtsTokens(c.Stmts, c.Full), " ")
+	if len(c.Other) > 0 {
+		return "set f0 to transform " + strings.Join(StmtsTokens(c.Other, c.Full), " ") + " end " + c.mainSource(body)
+	}
+	return c.mainSource(body)
+}
+
+func (c TypeCase) mainSource(body string) string {
 	if c.Ctx == CtxPredicate {
 		return "set p to pattern at least 1 any begin " + body + " end find all p"
 	}
@@ -231,6 +241,10 @@ func TestC12Lists(t *testing.T) {
 		ctx := Ctx(rapid.IntRange(0, 1).Draw(t, "ctx"))
 		eg := &exprGen{t: t, vars: map[PType][]string{TString: {"match"}, TNumber: {"matchLength"}}}
 		stmts := declareVars(eg)
+		// w1 is never assigned in this body (so it is a string here), but another body of
+		// the same source - or an earlier compilation - may assign it a number or a boolean
+		sharedName := rapid.IntRange(0, 2).Draw(t, "shared") == 0
+		eg.vars[TString] = append(eg.vars[TString], "w1")
 		sg := &stmtGen{eg: eg, t: t, ctx: ctx, loopFuel: 2}
 		mode := rapid.SampledFrom([]string{"welltyped", "nearmiss", "nearmiss", "untyped"}).Draw(t, "mode")
 		depth := rapid.IntRange(1, 3).Draw(t, "depth")
@@ -260,6 +274,9 @@ func TestC12Lists(t *testing.T) {
 		}
 		full := rapid.Bool().Draw(t, "full")
 		c := TypeCase{Stmts: stmts, Ctx: ctx, Full: full}
+		if sharedName {
+			c.Other = []Stmt{{K: "set", Name: "w1", E: rapid.SampledFrom([]*Expr{Num(3), Bool(true), Num(0)}).Draw(t, "w1val")}, {K: "return", E: Str("x")}}
+		}
 		st.Eval()
 		SetInflight(func() string { return jsonStr(Failure{Property: "C12", Kind: "typing", Case: c}) })
 		sig, what, status, ran := checkTypeCase(c)
@@ -272,6 +289,9 @@ func TestC12Lists(t *testing.T) {
 		}
 		st.Count("mode_" + mode)
 		st.Count("verdict_" + status)
+		if sharedName {
+			st.Count("second_body_assigns_shared_name")
+		}
 		if ran {
 			st.Count("accepted_and_run")
 		}
